@@ -730,6 +730,78 @@ func (c *cluster) clientLoop(id int, stop <-chan struct{}, wg *sync.WaitGroup) {
 	}
 }
 
+// burstLoop is the 'read burst' client of the histories with a slow replica: every
+// now and then several goroutines issue linearizable reads back to back on the
+// slow replica (many reads within one tick of the NodeHost, while earlier ones
+// are still waiting for the replica to apply up to their read index) and at the
+// same time other goroutines complete writes back to back through another host.
+// A read must not be answered from a read index that was taken before it was invoked.
+func (c *cluster) burstLoop(stop <-chan struct{}, wg *sync.WaitGroup) {
+	defer wg.Done()
+	r := subRand(c.cfg.seed, 555)
+	slow := int(c.cfg.slowReplica) - 1
+	for {
+		select {
+		case <-stop:
+			return
+		case <-time.After(time.Duration(70+r.Intn(100)) * time.Millisecond):
+		}
+		if atomic.LoadInt32(&c.paused) != 0 {
+			continue
+		}
+		rnh := c.get(slow)
+		if rnh == nil || c.roleOf(slow) != roleVoter {
+			continue
+		}
+		// writers go through another voter
+		w := -1
+		for k := 0; k < 3; k++ {
+			if i := (slow + 1 + k + r.Intn(2)) % 3; i != slow && c.get(i) != nil && c.roleOf(i) == roleVoter {
+				w = i
+				break
+			}
+		}
+		if w < 0 {
+			continue
+		}
+		wnh := c.get(w)
+		if wnh == nil {
+			continue
+		}
+		c.note("read_burst")
+		var bw sync.WaitGroup
+		run := func(f func(k int, rr *vh.Rand)) {
+			rr := vh.NewRand(r.U64())
+			bw.Add(1)
+			go func() {
+				defer bw.Done()
+				defer func() {
+					if p := recover(); p != nil {
+						c.note("client_panic")
+					}
+				}()
+				for k := 0; k < 8; k++ {
+					f(k, rr)
+					// spread the invocations over the tick: a read invoked while an
+					// earlier one is pending and after a write completed in between
+					time.Sleep(time.Duration(rr.Intn(2500)) * time.Microsecond)
+				}
+			}()
+		}
+		for g := 0; g < 3; g++ {
+			run(func(k int, rr *vh.Rand) {
+				c.doWrite(90, w, wnh, uint64(1+rr.Intn(c.cfg.keys)), rr.U64()>>1|1, false, 300*time.Millisecond, nil, nil)
+			})
+		}
+		for g := 0; g < 4; g++ {
+			run(func(k int, rr *vh.Rand) {
+				c.doRead(91, slow, rnh, uint64(1+rr.Intn(c.cfg.keys)), rr.Bool(), 300*time.Millisecond)
+			})
+		}
+		bw.Wait()
+	}
+}
+
 func (c *cluster) restartHost(i int, r *vh.Rand) {
 	nh := c.get(i)
 	if nh == nil || c.roleOf(i) != roleVoter {
@@ -1118,6 +1190,10 @@ func runHistory(cfg histCfg) (*histResult, error) {
 	for i := 0; i < cfg.clients; i++ {
 		wg.Add(1)
 		go c.clientLoop(i+1, stop, &wg)
+	}
+	if cfg.slowReplica != 0 {
+		wg.Add(1)
+		go c.burstLoop(stop, &wg)
 	}
 	nstop := make(chan struct{})
 	nwg.Add(1)
